@@ -84,6 +84,8 @@ class Ctx:
     def export_validate(self, name, consts, fam, timeout=1200, drain=False, maxsched=None, extra=()):
         stats, scheds = vlib.export_schedules(name, consts, self.kf, workers=vlib.NCPU, timeout=timeout)
         recs = [vlib.sched_record(s, consts, "%s-%d" % (name, i), fam) for i, s in enumerate(scheds)]
+        # every maximal behaviour is replayed unless there are more than the tier can afford
+        maxsched = maxsched or (4000 if self.quick() else 20000)
         if maxsched and len(recs) > maxsched:
             import random
             rnd = random.Random(self.seed)
